@@ -17,4 +17,10 @@ pub use strum::IntoEnumIterator as IterableEnum;
 
 extern crate alloc;
 
+/// Verification hooks: re-exports of crate-private tape machinery
+#[cfg(feature = "verif")]
+pub mod verif {
+    pub use crate::zx::tape::{Tap, TapeImpl};
+}
+
 pub type Result<T> = core::result::Result<T, error::Error>;
